@@ -101,8 +101,8 @@ def build(shape: str, axiom_idx: tuple, claim_mode: str = 'all', share: bool = F
             seen.append(a)
             claims.append(a)
             proofs.append(m.load_axiom(a))
-    top._claims = list(claims)
-    top._proof_expressions = list(proofs)
+    top.add_claims(list(claims))
+    top.add_proof_expressions(list(proofs))
     return top, {'published': [a for _, a in pub], 'claims': claims}
 
 
